@@ -164,9 +164,17 @@ func replayWitness(repo, hdir string, names []string, wpath string, v *Violation
 	defer os.Remove(ovFile)
 	ctx, cancel := context.WithTimeout(context.Background(), 180*time.Second)
 	defer cancel()
-	cmd := exec.CommandContext(ctx, "go", "test", "-tags", "verif", "-vet=off", "-count=1", "-v", "-overlay", ovFile, "-run", "^TestVfReplay$", ".")
+	args := []string{"test", "-tags", "verif", "-vet=off", "-count=1", "-v", "-overlay", ovFile, "-run", "^TestVfReplay$"}
+	env := append(os.Environ(), "VF_WITNESS="+wpath, "GOFLAGS=-mod=mod", "GOPROXY=off", "GOSUMDB=off", "GOTOOLCHAIN=local")
+	if v.Kind == "race" {
+		// data races are confirmed by Go's own race detector on the replayed schedule
+		args = append(args, "-race")
+		env = append(env, "CGO_ENABLED=1")
+	}
+	args = append(args, ".")
+	cmd := exec.CommandContext(ctx, "go", args...)
 	cmd.Dir = repo
-	cmd.Env = append(os.Environ(), "VF_WITNESS="+wpath, "GOFLAGS=-mod=mod", "GOPROXY=off", "GOSUMDB=off", "GOTOOLCHAIN=local")
+	cmd.Env = env
 	var out bytes.Buffer
 	cmd.Stdout = &out
 	cmd.Stderr = &out
@@ -185,6 +193,12 @@ func replayWitness(repo, hdir string, names []string, wpath string, v *Violation
 		} else {
 			return "replay-error", tail(txt, 1500)
 		}
+	}
+	if v.Kind == "race" {
+		if strings.Contains(txt, "WARNING: DATA RACE") {
+			return "reproduced", "go test -race reports a data race on the replayed schedule"
+		}
+		return "not-reproduced", res
 	}
 	switch v.Kind {
 	case "assert":
